@@ -29,7 +29,11 @@ static long                     n_cases = 0, n_fail_cases = 0, n_joint = 0;
 static void                     fail(const std::string& s)
 {
     if (failures.size() < 20)
+    {
         failures.push_back(s);
+        std::printf("oracle-fail %s\n", s.c_str()); // at once: the line must survive a later crash of the code under test
+        std::fflush(stdout);
+    }
 }
 static std::string log_str()
 {
@@ -539,6 +543,132 @@ static void run_joint_layout(AllocState& st, int form, std::size_t n1, std::size
     emit(op, res);
 }
 
+//=== C11: histories through joint_allocator itself (allocate_node / deallocate_node in any order) ===//
+// A member container (std::vector<T, joint_allocator>) that regrows allocates its new buffer first and releases the old one
+// afterwards, i.e. it releases a node that is NOT the newest: only the newest allocation may be given back.
+//   jh <objSize> <extra> <op>...   with op = a:<size>:<align> | d:<index of an earlier allocation>
+//   result: one token per op (a -> offset from the object or "oofm", d -> "-") and the final top / capacity left
+struct JH : joint_type<JH>
+{
+    long tag;
+    JH(joint j, long t) : joint_type<JH>(j), tag(t) {}
+};
+
+static void run_joint_history(AllocState& st, Rng& g, std::size_t extra, int nops, bool vector_like)
+{
+    quiet = true;
+    LOG.clear();
+    LogAlloc    a(st);
+    std::string op = fmt("jh %zu %zu", sizeof(JH), extra), res;
+    {
+        auto            jp = allocate_joint<JH>(a, joint_size(extra), 7L);
+        char*           obj = reinterpret_cast<char*>(jp.get());
+        joint_allocator alloc(*jp);
+        struct Rec
+        {
+            char*       p;
+            std::size_t size;
+            bool        released; // given back by the allocator (was the newest), or merely abandoned by the user
+            bool        user_live;
+        };
+        std::vector<Rec> recs;
+        auto check_new = [&](char* p, std::size_t size, std::size_t align)
+        {
+            if (p < obj + sizeof(JH) || p + size > obj + sizeof(JH) + extra)
+                fail(op + fmt(": joint_allocator node [%zu,+%zu) outside the joint memory", std::size_t(p - obj), size));
+            if (reinterpret_cast<std::uintptr_t>(p) % align != 0)
+                fail(op + fmt(": joint_allocator node at %zu not aligned to %zu", std::size_t(p - obj), align));
+            for (auto& r : recs)
+                if (r.user_live && p < r.p + r.size && r.p < p + size)
+                    fail(op + fmt(": joint_allocator node [%zu,+%zu) overlaps the live node [%zu,+%zu)", std::size_t(p - obj), size,
+                                  std::size_t(r.p - obj), r.size));
+        };
+        for (int i = 0; i < nops; ++i)
+        {
+            bool do_alloc = recs.empty() || g.chance(vector_like ? 50 : 60);
+            if (vector_like && !recs.empty() && i % 2 == 1)
+            { // regrow: a bigger buffer first, then the old one goes back
+                std::size_t old = recs.size() - 1 - g.below(std::min<std::size_t>(recs.size(), 2));
+                if (recs[old].user_live)
+                {
+                    std::size_t size = recs[old].size * 2, align = 4;
+                    op += fmt(" a:%zu:%zu", size, align);
+                    try
+                    {
+                        char* p = static_cast<char*>(alloc.allocate_node(size, align));
+                        check_new(p, size, align);
+                        std::memset(p, 0x5a, size);
+                        recs.push_back({p, size, false, true});
+                        res += fmt(" %zu", std::size_t(p - obj));
+                    }
+                    catch (out_of_fixed_memory&)
+                    {
+                        res += " oofm";
+                        recs.push_back({nullptr, size, true, false});
+                    }
+                    op += fmt(" d:%zu", old);
+                    alloc.deallocate_node(recs[old].p, recs[old].size, 4);
+                    recs[old].user_live = false;
+                    res += " -";
+                    continue;
+                }
+            }
+            if (do_alloc)
+            {
+                static const std::size_t sizes[] = {1, 3, 4, 8, 12, 16, 24, 40};
+                std::size_t              size = sizes[g.below(8)], align = std::size_t(1) << g.below(5);
+                op += fmt(" a:%zu:%zu", size, align);
+                try
+                {
+                    char* p = static_cast<char*>(alloc.allocate_node(size, align));
+                    check_new(p, size, align);
+                    std::memset(p, 0x5a, size);
+                    recs.push_back({p, size, false, true});
+                    res += fmt(" %zu", std::size_t(p - obj));
+                }
+                catch (out_of_fixed_memory&)
+                {
+                    res += " oofm";
+                    recs.push_back({nullptr, size, true, false});
+                }
+            }
+            else
+            {
+                std::size_t k = g.below(recs.size());
+                if (!recs[k].user_live)
+                {
+                    --i;
+                    if (g.chance(30))
+                        ++i;
+                    continue;
+                }
+                op += fmt(" d:%zu", k);
+                alloc.deallocate_node(recs[k].p, recs[k].size, 1);
+                recs[k].user_live = false;
+                res += " -";
+            }
+        }
+        auto& stack = detail::get_stack(*jp);
+        res = "ok" + res
+              + fmt(" top=%zu left=%zu", std::size_t(stack.top() - obj), stack.capacity_left());
+        // the memory of nodes the user still holds must be untouched
+        for (auto& r : recs)
+            if (r.user_live)
+                for (std::size_t b = 0; b < r.size; ++b)
+                    if (static_cast<unsigned char>(r.p[b]) != 0x5a)
+                    {
+                        fail(op + fmt(": live joint_allocator node [%zu,+%zu) was overwritten", std::size_t(r.p - obj), r.size));
+                        break;
+                    }
+        jp.reset();
+    }
+    if (!st.out.empty())
+        fail(op + ": block not released by reset()");
+    quiet = false;
+    ++n_joint;
+    emit(op, res);
+}
+
 template <class E>
 static void sweep(AllocState& st, bool thorough, Rng& g)
 {
@@ -693,6 +823,9 @@ int main(int argc, char** argv)
             }
         LOG.clear();
     }
+    // joint_allocator histories (C11): releases in any order, vector-like regrowth
+    for (int i = 0; i < (thorough ? 400 : 60); ++i)
+        run_joint_history(st, g, 16 + g.below(200), 4 + int(g.below(14)), i % 3 == 0);
     // swap / move of joint_ptrs: every block goes back with its own size (checked by the instrumented allocator)
     {
         quiet = true;
@@ -712,8 +845,6 @@ int main(int argc, char** argv)
         protos.clear();
         quiet = false;
     }
-    for (auto& f : failures)
-        std::printf("oracle-fail %s\n", f.c_str());
     std::printf("summary ops=%ld ok=%ld null=0 throw=%ld grow=0 joint=%ld up_alloc=%ld up_dealloc=%ld oracle_checks=%ld\n", n_cases + n_joint,
                 n_cases - n_fail_cases, n_fail_cases, n_joint, st.n_alloc, st.n_dealloc, n_cases + n_joint);
     return 0;
